@@ -7,7 +7,7 @@ by decoding a random BER form, clones, read-only uses in between).  DER and CER 
 identical; re-encoding a decoded DER (CER) encoding must reproduce it.  The Coq encoder model evaluated on the
 value as each history built it must give the implementation's bytes."""
 import json
-from harness import core, codec, universe as U, implrun as I
+from harness import core, codec, gen, universe as U, implrun as I
 from harness.gen import base_desc
 from harness import containers as C
 from pyasn1 import error
@@ -36,6 +36,8 @@ class Builder(object):
             self.stats['reads raising PyAsn1Error'] += 1
         except (IndexError, KeyError):
             self.stats['reads raising a lookup error'] += 1
+        except Exception as e:  # noqa - e.g. OverflowError from REAL comparison through float: the read failed, nothing more
+            self.stats['reads raising %s' % type(e).__name__] += 1
 
     def common_reads(self, obj, path):
         r = self.r
@@ -107,6 +109,8 @@ class Builder(object):
         if d[0] != 'ok' or d[2] or not U.aval_eq(U.absval_top(d[1], T), want):
             self.stats['decode route: does not read back (C01/C02 matter)'] += 1
             return None
+        if form in ('CER', 'DER') and 'setof' in gen.features(T):
+            self.shuffled = True          # canonical forms carry SET OF members in sorted order
         self.say('%s: decoded from its %s form (%d octets)' % (path, form, len(e[1])))
         self.stats['built by decoding: ' + form] += 1
         return d[1]
@@ -430,6 +434,44 @@ def targeted():
     return out
 
 
+def fixed_orders(ctx):
+    """deterministic histories: every position of a SEQUENCE OF / SET OF first assigned in descending order,
+    directly and through an element built in place, against the ascending twin"""
+    rec = ('seq', [('req', ('int',)), ('opt', ('octs',))])
+    for T, v in [(('seqof', ('int',)), ('list', [('i', 1), ('i', 2), ('i', 3)])),
+                 (('setof', ('int',)), ('list', [('i', 1), ('i', 2), ('i', 3)])),
+                 (('seqof', rec), ('list', [('rec', [('i', 1), None]), ('rec', [('i', 2), ('o', b'x')]), ('rec', [('i', 3), None])]))]:
+        c = codec.Case(T, v)
+        for how in ('item', 'pos', 'in-place'):
+            b = base_desc(T)
+            if how == 'in-place' and b[1][0] != 'seq':
+                continue
+            obj = c.spec.clone()
+            for j in reversed(range(len(v[1]))):
+                if how == 'in-place':
+                    elem = obj[j]
+                    for i, fv in enumerate(v[1][j][1]):
+                        if fv is not None:
+                            elem['f%d' % i] = U.build_value(b[1][1][i][1], fv)
+                else:
+                    sub = U.build_value(b[1], v[1][j], spec=c.spec.componentType)
+                    if how == 'item': obj[j] = sub
+                    else: obj.setComponentByPosition(j, sub)
+            ctx.case(('fixed-order', how, c.cty), True)
+            ctx.stats['fixed descending-assignment histories'] += 1
+            m = {'T': jsonable(T), 'v': jsonable(v), 'history_B': 'positions assigned in descending order (%s)' % how}
+            if not U.aval_eq(U.absval_top(obj, T), c.want):
+                ctx.prop_fail('the construction history did not reach the intended abstract value', m)
+                continue
+            if not iteration_ok(obj):
+                ctx.prop_fail('a SEQUENCE OF / SET OF does not iterate its members by ascending position', m)
+            for cdc in ('DER', 'CER', 'BER'):
+                ea, eb = I.run_encode(cdc, c.obj), I.run_encode(cdc, obj)
+                if (ea[0], ea[1]) != (eb[0], eb[1]):
+                    ctx.prop_fail('%s bytes differ between two objects with the same abstract value%s' % (cdc, ' and member order' if cdc == 'BER' else ''),
+                                  dict(m, codec=cdc, bytes_plain=jsonable(ea[1]), bytes_history=jsonable(eb[1])))
+
+
 def run(ctx):
     ctx.rule = ('random (type, value) of the universe (depth<=3) plus targeted SET/SET OF/DEFAULT cases; per case one plain object and one '
                 'built by a random construction history (random assignment order by name/position/tag, SET OF members shuffled, DEFAULT '
@@ -439,6 +481,7 @@ def run(ctx):
                 'non-trivial = constructed type with at least 2 recorded history steps')
     cases = targeted() + codec.gen_cases(ctx, ctx.n(150, 2500), depth=3)
     exprs, meta = [], []
+    fixed_orders(ctx)
     for n, c in enumerate(cases):
         for rep in range(2 if base_desc(c.T)[0] in CONSTRUCTED else 1):
             check_case(ctx, c, wild=(n % 5 == 4 and rep == 1), exprs=exprs, meta=meta)
